@@ -5,4 +5,4 @@ META = dict(trusted_base=COMMON_TB + [
 
 
 def items(tier):
-    return contract_items("C17")
+    return contract_items("C17", tier)
